@@ -47,33 +47,42 @@ Print Assumptions drop_probs_loader_depends_on_history.
 
 (* circuits: export reads the current state of the queue's objects only (so an update through any alias is
    what the next export shows, and equals the export of a from-scratch build in that state) *)
-Theorem export_current_state_only : forall required h1 h2 c,
-  (forall id, In id c -> nth_error h1 id = nth_error h2 id) -> export required h1 c = export required h2 c.
+Theorem export_current_state_only : forall required tdefault h1 h2 c,
+  (forall id, In id c -> nth_error h1 id = nth_error h2 id) -> export required tdefault h1 c = export required tdefault h2 c.
 Proof. exact History.export_current_state_only. Qed.
 Print Assumptions export_current_state_only.
 
-Theorem export_after_alias_update : forall required h a vals c hfresh,
+Theorem export_after_alias_update : forall required tdefault h a vals c hfresh,
   (forall id, In id c -> nth_error hfresh id = nth_error (set_params h a vals) id) ->
-  export required (set_params h a vals) c = export required hfresh c.
+  export required tdefault (set_params h a vals) c = export required tdefault hfresh c.
 Proof. exact History.export_after_alias_update. Qed.
 Print Assumptions export_after_alias_update.
 
 Example export_after_alias_update_nonvacuous :
   let h := [mkG 1 [0%Z] [(7%nat, 10%Z)] true; mkG 2 [1%Z] [] false; mkG 1 [1%Z] [(7%nat, 20%Z)] false] in
-  export (fun _ => true) (set_params h [0; 1; 2; 0]%nat [5; 6]%Z) [0; 0; 2]%nat
-  = [Some (1%nat, [0%Z], [(7%nat, 6%Z)]); Some (1%nat, [0%Z], [(7%nat, 6%Z)]); Some (1%nat, [1%Z], [(7%nat, 20%Z)])].
+  export (fun _ => true) (fun _ => true) (set_params h [0; 1; 2; 0]%nat [5; 6]%Z) [0; 0; 2]%nat
+  = [Some (1%nat, [0%Z], [(7%nat, 6%Z)], None); Some (1%nat, [0%Z], [(7%nat, 6%Z)], None); Some (1%nat, [1%Z], [(7%nat, 20%Z)], Some false)].
 Proof. exact History.export_alias_nonvacuous. Qed.
 
-Theorem reexport_stable : forall required h c d, export required h c = map Some d ->
-  export required (fst (import d)) (snd (import d)) = map Some d.
+Theorem reexport_stable : forall required tdefault h c d, export required tdefault h c = map Some d ->
+  export required tdefault (fst (import tdefault d)) (snd (import tdefault d)) = map Some d.
 Proof. exact History.reexport_stable. Qed.
 Print Assumptions reexport_stable.
 
-Theorem import_objects_distinct : forall d, NoDup (snd (import d)).
+Theorem import_objects_distinct : forall tdefault d, NoDup (snd (import tdefault d)).
 Proof. exact History.import_objects_distinct. Qed.
 Print Assumptions import_objects_distinct.
 
-(* the full statement "the import has the same trainable flags" is false of the faithful model (filed finding) *)
-Theorem trainable_roundtrip_refuted : forall required, exists g, g_trainable (gimport (graw required g)) <> g_trainable g.
-Proof. exact History.trainable_roundtrip_refuted. Qed.
-Print Assumptions trainable_roundtrip_refuted.
+(* repaired tree: `trainable` is exported iff it differs from the class default, so the import has the flag of the
+   exported object (tied to the implementation by the direct comparisons of hist_gate / opt, which include trainable
+   and get_parameters(), and at the level of the full model by Model.raw_t: see C13/PropsTrainable.v) *)
+Theorem trainable_roundtrip : forall required tdefault g,
+  g_trainable (gimport tdefault (graw required tdefault g)) = g_trainable g.
+Proof. exact History.trainable_roundtrip. Qed.
+Print Assumptions trainable_roundtrip.
+
+(* historical: of the exporter before the repair the statement was false *)
+Theorem historical_trainable_roundtrip_refuted : forall required,
+  exists g, g_trainable (gimport_old (graw_old required g)) <> g_trainable g.
+Proof. exact History.historical_trainable_roundtrip_refuted. Qed.
+Print Assumptions historical_trainable_roundtrip_refuted.
